@@ -206,6 +206,10 @@ def _probe_getitem(t):
     return torch.stack([v.to_dense() for v in vals]).reshape(tuple(t.size()))
 
 
+def _sq(t):
+    return t.ndim == 2 and t.shape[0] == t.shape[1]
+
+
 def binary_ops():
     import torch
     from fggs.indices import stack
@@ -243,6 +247,10 @@ def binary_ops():
         ('bcast-unit-left', lambda a, b: a[0].unsqueeze(0).maximum(b), lambda x, y: torch.maximum(x[0].unsqueeze(0), y), lambda a, b: a == a and b == b),
         ('bcast-unit-left-clone', lambda a, b: a[0].unsqueeze(0).clone().add(b), lambda x, y: x[0].unsqueeze(0) + y, lambda a, b: True),
         ('bcast-unit-right-clone', lambda a, b: a.lt(b[0].unsqueeze(0).clone()), lambda x, y: x.lt(y[0].unsqueeze(0)), lambda a, b: True),
+        # an operand together with its own transpose (same physical axes, other virtual order); square matrices only
+        ('own-transpose-add', lambda a, b: a.add(a.T if _sq(a) else a), lambda x, y: x + (x.T if _sq(x) else x), lambda a, b: True),
+        ('own-transpose-maximum', lambda a, b: (a.T if _sq(a) else a).maximum(a), lambda x, y: torch.maximum(x.T if _sq(x) else x, x), lambda a, b: a == a and b == b),
+        ('own-transpose-where', lambda a, b: a.where((a.T if _sq(a) else a).gt(3.), b), lambda x, y: x.where((x.T if _sq(x) else x).gt(3.), y), lambda a, b: True),
         ('bcast-where', lambda a, b: a[0].where(b.gt(3.), b), lambda x, y: x[0].where(y.gt(3.), y), lambda a, b: True),
         ('expand_as', lambda a, b: a.unsqueeze(0).expand_as(b.unsqueeze(0).expand(3, *b.size())), lambda x, y: x.unsqueeze(0).expand(3, *y.shape), ANY2),
     ]
@@ -456,7 +464,7 @@ def one_binary(pa, pb, da, db, ops, r, extras, warn_excl=False):
         except ptinv.RepInvariantError as e:
             bad(r, 'representation-invariant', name, '%s: %s' % (desc, e), sub, key)
         except Warning as w:
-            if (name.startswith('bcast') or warn_excl) and 'antiunify' not in str(w):
+            if (name.startswith('bcast') or name.startswith('own-transpose') or warn_excl) and 'antiunify' not in str(w):
                 # a one-hot row produced by __getitem__ on a product-typed axis meets a product pattern: the library
                 # itself declares this an index type mismatch, i.e. outside the well-typed scope
                 r.excl['composition leaves the well-typed scope (library warning)'] += 1
